@@ -12,4 +12,9 @@ let handle (args : t list) : t =
        | POk (text, c1) -> L [A "ok"; of_cl text; A (string_of_int (int_of_nat c1))]
        | PError -> A "error"
        | PUnsupported -> A "unsupported")
+  (* (compile declarative (ctx) <ynode>) -> 1 | 0 | error | unsupported : no hand-written Rego and every constraint about the variable in
+     scope (Compile.profile_scoped, the premise of C07_declarative_profile_bodies_are_safe) *)
+  | [A "declarative"; L c; y] ->
+      (match declarative (Glue_c15.ctx c) (Glue_c15.ynode y) with
+       | POk true -> A "1" | POk false -> A "0" | PError -> A "error" | PUnsupported -> A "unsupported")
   | _ -> raise (Parse_error "compile op")
